@@ -199,6 +199,9 @@ func WorkerMain(hs []*Harness) int {
 		n := envInt("VERIF_MAXRUNS", 20)
 		for i := 0; i < n; i++ {
 			seed := Decide(seedBase, "run", strconv.Itoa(worker), strconv.Itoa(i))
+			if cs := os.Getenv("VERIF_CASE_SEED"); cs != "" {
+				seed, _ = strconv.ParseUint(cs, 10, 64)
+			}
 			c := h.Gen(seed, tier, focus, variant)
 			res := safeRun(h, c)
 			sigs := []string{}
